@@ -1,6 +1,7 @@
 (* Extraction of the literal models for the correspondence harness.
    ExtrOcamlBasic only (bool, option, unit, list, prod, sumbool, sumor); numbers stay positive/N. *)
-From HyV Require Import Base.Text Gen.LitTables Lit.Strings Lit.StringsSpec Lit.StringsRun.
+From HyV Require Import Base.Text Gen.LitTables Lit.Strings Lit.StringsSpec Lit.StringsRun Lit.Numeric Lit.NumericRun.
 Require Extraction.
 Require Import ExtrOcamlBasic.
-Extraction "../extract/lit_model.ml" m_string m_bracket m_uedec m_escdec m_bsr m_pyval.
+Extraction "../extract/lit_model.ml" m_string m_bracket m_uedec m_escdec m_bsr m_pyval
+  m_ident m_pyint m_pyfloat m_pycomplex m_isdigit.
